@@ -4,6 +4,7 @@ import (
 	"fmt"
 	"os"
 	"sort"
+	"sync"
 	"time"
 )
 
@@ -126,9 +127,12 @@ func (g *Gen) verifyFunc(name string, opts VerifyOpts) *FuncResult {
 		}
 	}
 	res := map[*Oblig]*OblResult{}
+	var rmu sync.Mutex
 	mk := func(o *Oblig) *OblResult {
 		r := &OblResult{Func: name, ID: o.ID, Kind: o.Kind, Safety: o.Safety, Cover: o.Cover, Src: o.Src, Desc: o.Desc, Points: o.N}
+		rmu.Lock()
 		res[o] = r
+		rmu.Unlock()
 		return r
 	}
 	jointDone := false
@@ -138,7 +142,7 @@ func (g *Gen) verifyFunc(name string, opts VerifyOpts) *FuncResult {
 			act[o] = true
 		}
 		f := writeQuery(dir, "joint", c.Emit(act)+"(check-sat)\n")
-		r := runSolver("z3-new", f, opts.Timeout)
+		r := race(f, 4*time.Second, []string{"z3-new", "z3-new-noext"})
 		if r.Answer == "unsat" {
 			jointDone = true
 			for _, o := range todo {
@@ -150,25 +154,37 @@ func (g *Gen) verifyFunc(name string, opts VerifyOpts) *FuncResult {
 			}
 		}
 	}
+	var emu sync.Mutex
+	emit := func(act map[*Oblig]bool) string {
+		emu.Lock()
+		defer emu.Unlock()
+		return c.Emit(act) + "(check-sat)\n"
+	}
+	var wg sync.WaitGroup
 	if !jointDone {
 		for _, o := range todo {
-			act := map[*Oblig]bool{o: true}
-			f := writeQuery(dir, o.ID, c.Emit(act)+"(check-sat)\n")
-			best, _ := decide(f, opts.Timeout, opts.AllSolvers)
+			o := o
 			or := mk(o)
-			or.Answer, or.Solver, or.Secs, or.File = best.Answer, best.Solver, best.Secs, f
-			if best.Answer != "unsat" {
-				or.Output = best.Output
-			} else if !opts.KeepFiles {
-				os.Remove(f)
-				or.File = ""
-			}
+			wg.Add(1)
+			go func() {
+				defer wg.Done()
+				f := writeQuery(dir, o.ID, emit(map[*Oblig]bool{o: true}))
+				best := race(f, opts.Timeout, solverOrder)
+				or.Answer, or.Solver, or.Secs, or.File = best.Answer, best.Solver, best.Secs, f
+				if best.Answer != "unsat" {
+					or.Output = best.Output
+				} else if !opts.KeepFiles {
+					os.Remove(f)
+					or.File = ""
+				}
+			}()
 		}
 	}
+	wg.Wait()
 	for _, o := range covers {
 		act := map[*Oblig]bool{o: true}
-		f := writeQuery(dir, o.ID, c.Emit(act)+"(check-sat)\n")
-		r := runSolver("z3-new", f, 3*time.Second)
+		f := writeQuery(dir, o.ID, emit(act))
+		r := runSolver("z3-new", f, 2*time.Second)
 		or := mk(o)
 		or.Answer, or.Solver, or.Secs = r.Answer, r.Solver, r.Secs
 		if r.Answer == "unsat" {
